@@ -952,8 +952,25 @@ void check_error_report(World &W, Peer &p, Exchange &x, const Walk &w, const Byt
 		return;
 	}
 	const Bytes &r = reports[0];
-	W.ctx.count("probe_report_" + w.why);
 	int code = get16(&r[2]);
+	// a payload violation of another record family may legitimately be the one the client met first
+	for (size_t ai = 1; ai < w.alts.size(); ai++) {
+		const Walk::Alt &a = w.alts[ai];
+		if (!a.codes.count(code) || r.size() < 16)
+			continue;
+		uint32_t el = get32(&r[8]);
+		size_t have = stream.size() > a.off ? stream.size() - a.off : 0;
+		size_t plen = a.olen < have ? a.olen : have;
+		if ((uint64_t)16 + el <= r.size() && el <= plen && el > 0 && memcmp(&r[12], &stream[a.off], el) == 0 &&
+		    !(w.codes.count(code) && el <= (w.olen < stream.size() - w.off ? w.olen : stream.size() - w.off) && memcmp(&r[12], &stream[w.off], el) == 0)) {
+			W.ctx.count("probe_report_for_other_family_first");
+			W.ctx.count("probe_report_" + a.why);
+			if (r[0] != (uint8_t)w.version_after)
+				W.ctx.viol("C14", "report-version", "C14:report:version", "Error Report carries version %u, negotiated version is %d", r[0], w.version_after);
+			return;
+		}
+	}
+	W.ctx.count("probe_report_" + w.why);
 	if (r[0] != (uint8_t)w.version_after)
 		W.ctx.viol("C14", "report-version", "C14:report:version", "Error Report carries version %u, negotiated version is %d", r[0], w.version_after);
 	if (!w.codes.count(code))
